@@ -52,10 +52,16 @@ func evalInt(v ssa.Value, atom func(ssa.Value) (int64, bool), depth int) (int64,
 			if b == 0 {
 				return 0, false
 			}
+			if isUnsigned(x.Type()) {
+				return wrapTo(int64(uint64(a)/uint64(b)), x.Type()), true
+			}
 			return a / b, true
 		case token.REM:
 			if b == 0 {
 				return 0, false
+			}
+			if isUnsigned(x.Type()) {
+				return wrapTo(int64(uint64(a)%uint64(b)), x.Type()), true
 			}
 			return a % b, true
 		case token.AND:
@@ -67,6 +73,9 @@ func evalInt(v ssa.Value, atom func(ssa.Value) (int64, bool), depth int) (int64,
 		case token.SHL:
 			return a << uint(b), true
 		case token.SHR:
+			if isUnsigned(x.Type()) {
+				return int64(uint64(a) >> uint(b)), true
+			}
 			return a >> uint(b), true
 		case token.AND_NOT:
 			return a &^ b, true
@@ -120,6 +129,27 @@ func EvalCond(v ssa.Value, atom func(ssa.Value) (int64, bool)) (bool, bool) {
 		return false, false
 	}
 	var r bool
+	if isUnsigned(b.X.Type()) && (x < 0 || y < 0) {
+		// 64-bit unsigned operands with the top bit set are held as negative int64: order them as unsigned
+		ux, uy := uint64(x), uint64(y)
+		switch b.Op {
+		case token.LSS:
+			r = ux < uy
+		case token.LEQ:
+			r = ux <= uy
+		case token.GTR:
+			r = ux > uy
+		case token.GEQ:
+			r = ux >= uy
+		case token.EQL:
+			r = ux == uy
+		case token.NEQ:
+			r = ux != uy
+		default:
+			return false, false
+		}
+		return r != neg, true
+	}
 	switch b.Op {
 	case token.LSS:
 		r = x < y
@@ -327,4 +357,9 @@ func (l *CountedLoop) IterateTo(site *ssa.BasicBlock, atom func(ssa.Value) (int6
 		cur = nx
 	}
 	return true
+}
+
+func isUnsigned(t types.Type) bool {
+	b, ok := t.Underlying().(*types.Basic)
+	return ok && b.Info()&types.IsUnsigned != 0
 }
